@@ -28,8 +28,31 @@ def main(pid, args):
         print('no check for ' + pid)
         sys.exit(2)
     work = tempfile.mkdtemp(prefix='lv_%s_' % pid, dir=os.environ.get('TMPDIR', '/tmp'))
+    t0 = time.time()
     try:
         fn(work, args)
+    except SystemExit:
+        raise
+    except Exception as e:  # noqa
+        # a step of the machinery itself could not run against the current tree (the harness or llw does not build,
+        # a tool crashed): the property is no longer shown to hold; say which step, as the protocol demands
+        import traceback
+        tb = traceback.format_exc()
+        sys.stderr.write(tb)
+        rdir = os.path.join(lv.VERIF, 'evidence', 'replay')
+        os.makedirs(rdir, exist_ok=True)
+        path = os.path.join(rdir, '%s_machinery.json' % pid)
+        json.dump({'property': pid, 'what': 'the check could not be carried out against the current tree: %s' % repr(e)[:500],
+                   'broken_step': tb[-3000:], 'replay': None}, open(path, 'w'), indent=1)
+        tier = 'thorough' if 'thorough' in args else os.environ.get('VERIF_TIER', 'quick')
+        ev = {'property_id': pid, 'tier': tier if tier in ('quick', 'thorough') else 'quick', 'seed': int(os.environ.get('VERIF_SEED', '1') or 1),
+              'level': 'other', 'coverage': {'evaluations': 0, 'distinct_nontrivial': 0, 'rule': 'the run aborted before exploring anything: ' + repr(e)[:300],
+                                             'samples': [repr(e)[:300]]},
+              'assumptions': [], 'wall_s': round(time.time() - t0, 2), 'violations': 1}
+        json.dump(ev, open(os.path.join(lv.VERIF, 'evidence', pid + '.json'), 'w'), indent=1)
+        print('violation: the check could not be carried out against the current tree (%s)' % repr(e)[:300])
+        print('VIOLATION property=%s replay=%s no-failing-input-found' % (pid, path))
+        sys.exit(1)
     finally:
         shutil.rmtree(work, ignore_errors=True)
 
